@@ -6,13 +6,13 @@ import random
 from typing import Any
 
 from harness.common import Ck
-from harness.c07_util import World
-from translate import c07_index_sites, c07_index_shapes, c07_index_del, c07_index_listops
+from harness.c07_util import World, Hang, time_limit
+from translate import c07_index_sites, c07_index_shapes, c07_index_del, c07_index_listops, c07_index_glue
 
 MANIFEST = dict(
-    technique='Rocq proof (index invariant preserved by every operation incl. defaultdict reads, by induction over operation sequences on several maps; every operation respects ix_equiv; search() sound and complete; make_unique loop termination by pigeonhole; CopySet iteration total and exception-free under arbitrary mutation; worldspawn pinned; every index-maintaining function of vmf.py read off the source as a program/shape and proved equal to the model operation whenever its named path obligations hold) + four fail-closed ast translators (census of writers/escapes/key sources on a normalised function; shapes/programs of Entity.__setitem__ (lookup loop and maintenance chain), Entity.__delitem__, Entity.clear, VMF.add_ent, VMF.add_ents, VMF.remove_ent, _remove_copyset, VMF.search, CopySet.__iter__) + vm_compute correspondences (operation sequences, search, search as written, iteration traces) + scan oracle on real VMF objects',
-    text='Theorems in Props/C07.v about SM/IndexModel.v (entity list, spawn, per-entity key lists with case-insensitive first-spelling-wins lookup, by_class/by_target as maps from folded key to sets of entities, possibly holding empty sets left by defaultdict reads): the invariant "every index entry equals the scan of entities+worldspawn under the current folded classname / targetname (\'\' -> None), the worldspawn has class worldspawn and is listed under it" holds for VMF(), for VMF.parse of any tree, is preserved by every operation (create_ent/add_ent/add_ents/remove_ent, Entity(), copy between maps, []=, del (single and tuple), pop, popitem, setdefault, update, clear, make_unique, export, reading by_class[k]/by_target[k]) whatever its arguments and whether or not it raises, hence after every finite history over any number of maps; search() returns exactly the matching entities; states that differ only in empty sets held by the index maps stay equivalent under every operation (round 3). The decisive code is modelled from its source, regenerated on every run, and for each function a theorem says that every generated object passing its named obligations is the model operation for all inputs: the lookup loop of Entity.__setitem__ (round 2) and, round 3, its whole maintenance chain incl. the error path of the worldspawn guard with its recursive store (set_item); Entity.__delitem__ = pre-loop program + pop loop shape (del_item); Entity.clear as a step list (clear); VMF.add_ents over one-shot and re-iterable arguments (add_ents); VMF.add_ent and VMF.remove_ent as programs whose conditions are evaluated where they stand (add_ent, remove_ent); _remove_copyset as a shape (ix_remove; leaving empty sets is reader-equal); VMF.search as a program over real defaultdict semantics and CopySet.__iter__ as a generator program (round 2). Faulty shapes are refuted by computed witnesses on reachable states (caller-spelling read, read after store, if/elif search, plain set iteration, direct revert in the worldspawn guard, add_ents iterating twice, set.remove / inverted emptiness test / missing None guard in _remove_copyset, unguarded by_target[None] addition and pop by the caller\'s spelling in __delitem__, membership test before the list removal and and-guard in remove_ent, clear forgetting the targetname). make_unique: the while-True loop ends within n+1 candidates and never raises. Tied to vmf.py on every run by the fail-closed census (writers of Entity._keys, escapes of the dict, writers of VMF.entities/VMF.spawn, every index update: key folded, value read from the filed entity, adds guarded; classified on a normalised function), 34 shape/path obligations, and correspondences comparing, after every step, error code, entity list, key lists and both indexes of the model with real VMF objects (add_ents called with generator/iterator/map/list/tuple), search results and the yield traces of index iterations with mutating bodies; a scan oracle checks the property directly on the implementation after every step.',
-    note='Trusted: Coq kernel + vm_compute, translate/c07_index_sites.py, c07_index_shapes.py, c07_index_del.py, c07_index_listops.py, the hand model SM/IndexModel.v (tied by the correspondences and, for __setitem__/__delitem__/clear/add_ent/add_ents/remove_ent/_remove_copyset/search/CopySet.__iter__, by translator-generated programs proved equal to it), CPython. No axioms. str.casefold is a parameter of the model; theorems assume it fixes the empty string and the literals classname/targetname/worldspawn, is idempotent (search), distributes over an appended decimal number (make_unique termination) and does not map nodeid to classname/targetname (clear) - all proved for ASCII lower-casing, true of str.casefold. Hand-modelled without a generated program (census + correspondence only): VMF.__init__, VMF.parse/replace_spawn, Entity.__init__/copy, make_unique, the MutableMapping mixins pop/popitem/setdefault/update. Not modelled: nodeid processing (C08), conversion of non-string values (conv_kv), Entity.keys setter (clear+update), laziness/order/multiplicity of search() results, the empty sets that make_unique and iteration leave in the implementation\'s defaultdicts (shown irrelevant for every later operation: c07_run_respects_ix_equiv). Non-ASCII names only in the oracle stream. Out of domain: add_ent of the worldspawn object or of an entity created for another VMF, writing through the dict returned by the deprecated Entity.keys property.',
+    technique='Rocq proof (index invariant preserved by every operation incl. defaultdict reads, by induction over operation sequences on several maps; every operation respects ix_equiv; search() sound and complete, and its multiplicity; make_unique loop termination by pigeonhole; CopySet iteration total and exception-free under arbitrary mutation; worldspawn pinned; EVERY function of vmf.py that writes an index, an entity list, VMF.spawn or a key dict - and the glue around them - read off the source as a program/shape and proved equal to the model operation whenever its named obligations hold; one statement c07_property over all generated programs with the census as a hypothesis) + five fail-closed ast translators (census of writers/escapes/key sources on a normalised function; programs/shapes of Entity.__setitem__ (lookup loop and maintenance chain), Entity.__delitem__, Entity.clear, Entity.__init__/parse/copy, Entity.pop, Entity.make_unique, VMF.__init__, VMF.parse (worldspawn replacement, entity loop), VMF.create_ent, VMF.add_ent, VMF.add_ents, VMF.remove_ent, _remove_copyset, VMF.search, CopySet.__iter__) + vm_compute correspondences (operation sequences incl. non-ASCII names under CPython\'s casefold table, search, search as written with multiplicities, iteration traces) + scan oracle on real VMF objects under a time limit',
+    text='Theorems in Props/C07.v about SM/IndexModel.v (entity list, spawn, per-entity key lists with case-insensitive first-spelling-wins lookup, by_class/by_target as maps from folded key to sets of entities, possibly holding empty sets left by defaultdict reads): the invariant "every index entry equals the scan of entities+worldspawn under the current folded classname / targetname (\'\' -> None), the worldspawn has class worldspawn and is listed under it" holds for VMF(), for VMF.parse of any tree, is preserved by every operation (create_ent/add_ent/add_ents/remove_ent, Entity(), copy between maps, []=, del (single and tuple), pop, popitem, setdefault, update, clear, make_unique, export, reading by_class[k]/by_target[k]) whatever its arguments and whether or not it raises, hence after every finite history over any number of maps; search() returns exactly the matching entities, each once per matching name plus once per matching class (c07_search_multiplicity, round 4); states that differ only in empty sets held by the index maps stay equivalent under every operation. The code is modelled from its source, regenerated on every run, and for each function a theorem says that every generated object passing its named obligations is the model operation for all inputs: Entity.__setitem__ (lookup loop + maintenance chain incl. the error path of the worldspawn guard), Entity.__delitem__, Entity.clear, VMF.add_ent/add_ents/remove_ent, _remove_copyset, VMF.search, CopySet.__iter__ (rounds 2-3) and, round 4, the glue: VMF.__init__ (= init), VMF.parse = constructor + worldspawn replacement + entity loop (= parse_init for every tree), VMF.create_ent, Entity.__init__/parse/copy, Entity.pop, Entity.make_unique (= make_unique). c07_property (round 4) composes them: for every record P of generated objects with programs_ok P and every census list (all functions that write by_class/by_target/VMF.entities/VMF.spawn/Entity._keys, from the census translator) with census_covered, every census function as written is the model operation on its modelled domain and preserves the invariant, and after every history of public operations as written on a map constructed as written the invariant holds, lookups by class and by name are exactly the scan, search as written is search_spec and the worldspawn is pinned; both hypotheses are instance obligations of every run. Faulty shapes are refuted by computed witnesses on reachable states (rounds 2-3 list, plus: constructor that does not file the spawn, parse re-assigning the spawn before dropping the placeholder, pop through _keys.pop, constructor filling the dict directly, make_unique looking a candidate up un-folded, search yielding the class set twice). Folding: str.casefold is a parameter; c07_table_fold_ok/idem show that ASCII lower-casing extended by any table of non-ASCII code points with folded images satisfies every fold hypothesis, and the correspondence runs the model with CPython\'s table for the names it uses (ß, İ, ...). Tied to vmf.py on every run by the fail-closed census, 58 shape/path obligations, and correspondences comparing, after every step, error code, entity list, key lists and both indexes of the model with real VMF objects (a fifth of the random histories with non-ASCII names; add_ents called with generator/iterator/map/list/tuple), search results as sets and as multisets, and the yield traces of index iterations with mutating bodies; a scan oracle checks the property directly on the implementation after every step (every history under a time limit: a hang is a violation with a replay).',
+    note='Trusted: Coq kernel + vm_compute, translate/c07_index_sites.py, c07_index_shapes.py, c07_index_del.py, c07_index_listops.py, c07_index_glue.py, the hand model SM/IndexModel.v (tied by the correspondences and, for every function of the census and the glue, by translator-generated programs proved equal to it), CPython (incl. the MutableMapping mixins popitem/setdefault/update, which Entity inherits: obligation popitem_setdefault_update_are_the_mutablemapping_mixins). No axioms. Composition in c07_property is by function: a call from one index-maintaining function to another is interpreted as the model operation, which the callee\'s own clause shows it to be (the generated programs are not inlined into each other; _remove_copyset = ix_remove is a separate clause). str.casefold is a parameter of the model; theorems assume it fixes the empty string and the literals classname/targetname/worldspawn, is idempotent (search, pop with the folded key), distributes over an appended decimal number (make_unique termination) and does not map nodeid to classname/targetname (clear) - proved for ASCII lower-casing and for every table folding with non-ASCII keys, checked against CPython for the code points used. Not modelled: nodeid processing (C08), conversion of non-string values (conv_kv), Entity.keys setter (clear+update), laziness and order of search() results (the generator runs when iterated; multiplicity is modelled), the empty sets that make_unique and iteration leave in the implementation\'s defaultdicts (shown irrelevant for every later operation: c07_run_respects_ix_equiv), VMF.export beyond its three key operations on the worldspawn. Out of domain: add_ent of the worldspawn object or of an entity created for another VMF, writing through the dict returned by the deprecated Entity.keys property.',
 )
 
 NAMES = ['a', 'A', 'Ab', 'aB', '', 'a1', 'worldspawn']
@@ -20,14 +20,15 @@ UNI_NAMES = ['ß', 'SS', 'ss', 'İ', 'a', 'A', '', 'worldspawn', 'WorldSpawn']
 CN_KEYS = ['classname', 'classname', 'Classname', 'CLASSNAME']
 TN_KEYS = ['targetname', 'targetname', 'TargetName', 'TARGETNAME']
 OTHER_KEYS = ['origin', 'Origin', 'x']
-QUERIES = ['a', 'A', 'ab', 'AB', 'a*', 'A*', '*', '', 'a1', 'worldspawn', 'WORLDSPAWN', 'ab*', 'info_null', 'b']
-QUERIES_SH = ['a', 'A*', 'ab', 'worldspawn', '']
+QUERIES = ['a', 'A', 'ab', 'AB', 'a*', 'A*', '*', '', 'a1', 'worldspawn', 'WORLDSPAWN', 'ab*', 'info_null', 'b', 'ß', 'S*']
+QUERIES_SH = ['a', 'A*', 'ab', 'worldspawn', '', 'ß']
 ADD_FORMS = ['gen', 'iter', 'map', 'list', 'tuple']      # how the iterable is handed to VMF.add_ents
 MAX_OBJS = 6
 # functions that are modelled by hand only (no generated shape): a change escalates the correspondence budget.
 # VMF.search, CopySet.__iter__, _remove_copyset, Entity.__setitem__ and VMF.add_ents are read off the source as shapes
 # with obligations on every run, so a rewrite of those needs no escalation.
-MODEL_DIGESTS: dict = {'Entity.make_unique': '11a000401c4a'}
+# round 4: Entity.make_unique has a generated shape too (Gen/IndexGlue_gen.v); nothing decisive is hand-modelled only
+MODEL_DIGESTS: dict = {}
 MAX_MAPS = 3
 
 
@@ -181,20 +182,31 @@ def gen_ops(rng: random.Random, n: int, names=NAMES, allow_iter: bool = True) ->
 
 
 # ------------------------------------------------------------------------------------------------ oracle
+HISTORY_LIMIT_S = 20.0     # a history runs in milliseconds; only an endless loop in the implementation reaches this
+HANGS = [0]                # histories that hit the limit in this run; after three the streams stop early (each costs 20 s)
+
+
 def first_problem(ops, queries=QUERIES):
     """Run a history on the implementation; scan after every model-level step.
-    Returns None or (step_index, step_op, problem_tuple)."""
+    Returns None or (step_index, step_op, problem_tuple).  An exception escaping the public API and an operation that
+    does not come back (Hang) are problems of the step during which they happen."""
     w = World(2)
     i = 0
-    for op in ops:
-        try:
-            for flat, _err in w.steps(op):
-                for m in range(len(w.maps)):
-                    for p in w.scan_problems(m, queries):
-                        return i, flat, p
-                i += 1
-        except Exception as exc:   # noqa: BLE001 - any exception escaping the public API in a legal history
-            return i, op, ('api', 'raised', {'error': f'{type(exc).__name__}: {exc}'})
+    op = None
+    try:
+        with time_limit(HISTORY_LIMIT_S):
+            for op in ops:
+                try:
+                    for flat, _err in w.steps(op):
+                        for m in range(len(w.maps)):
+                            for p in w.scan_problems(m, queries):
+                                return i, flat, p
+                        i += 1
+                except Exception as exc:   # noqa: BLE001 - any exception escaping the public API in a legal history
+                    return i, op, ('api', 'raised', {'error': f'{type(exc).__name__}: {exc}'})
+    except Hang as exc:
+        HANGS[0] += 1
+        return i, op, ('api', 'hang', {'error': f'{exc}'})
     return None
 
 
@@ -298,6 +310,9 @@ def search(ck: Ck) -> None:
     n = 30000 if ck.thorough else ck.budget(1500, 4000)
     found: dict[str, tuple] = {}
     for i in range(n):
+        if HANGS[0] >= 3:
+            ck.notes.append(f'oracle search stopped after {i} histories: the implementation did not come back {HANGS[0]} times')
+            break
         if i < len(CORPUS):
             ops = CORPUS[i]
         else:
@@ -324,7 +339,10 @@ def search(ck: Ck) -> None:
                 return False
             q = first_problem(h)
             return q is not None and classify(q[1], q[2]) == key
-        small = shrink(ops[:p[0] + 1] if len(ops) > p[0] + 1 and same(ops[:p[0] + 1]) else ops, same)
+        if p[2][1] == 'hang':      # every candidate that still hangs costs the whole time limit: keep the prefix, do not shrink
+            small = [o for o in ops[:ops.index(p[1]) + 1]] if p[1] in ops else ops
+        else:
+            small = shrink(ops[:p[0] + 1] if len(ops) > p[0] + 1 and same(ops[:p[0] + 1]) else ops, same)
         if key not in found or len(small) < len(found[key][0]):
             found[key] = (small, first_problem(small))
     for key, (ops, p) in sorted(found.items()):
@@ -334,7 +352,7 @@ def search(ck: Ck) -> None:
 
 
 # ------------------------------------------------------------------------------------------------ correspondence
-IMPORTS = ['stdpp.gmap', 'stdpp.sets', 'stdpp.list', 'Coq.NArith.NArith', 'SV.SM.IndexModel']
+IMPORTS = ['stdpp.gmap', 'stdpp.sets', 'stdpp.list', 'Coq.NArith.NArith', 'SV.SM.IndexModel', 'SV.SM.IndexFold']
 PRE = r"""
 Fixpoint ins_nat (x : nat) (l : list nat) : list nat :=
   match l with [] => [x] | y :: r => if Nat.leb x y then x :: l else y :: ins_nat x r end.
@@ -358,7 +376,7 @@ Fixpoint first_bad (n : nat) (steps : list (wop * nat * exp)) (w : list mstate) 
   match steps with
   | [] => None
   | (o, m, x) :: r =>
-      let '(w', er) := wstep ascii_fold o w in
+      let '(w', er) := wstep cf o w in
       match w' !! m with
       | Some st => if check_obs st er x then first_bad (S n) r w' else Some n
       | None => Some n
@@ -369,7 +387,7 @@ Definition w2 : list mstate := [init; init].
    the yields must be the snapshot (any order) followed by the late additions (any order) *)
 Definition sort_nats (l : list nat) : list nat := foldr ins_nat [] l.
 Definition iter_ok (fl : list wop) (pos m : nat) (cls : bool) (kc : str) (kt : option str) (ys : list nat) : bool :=
-  let w0 := wrun ascii_fold (take (S pos) fl) w2 in
+  let w0 := wrun cf (take (S pos) fl) w2 in
   let getset (w : list mstate) : gset nat :=
     match w !! m with
     | Some st => if cls then ix_get (by_class st) kc else ix_get (by_target st) kt
@@ -377,11 +395,27 @@ Definition iter_ok (fl : list wop) (pos m : nat) (cls : bool) (kc : str) (kt : o
     end in
   let s0 := getset w0 in
   let n0 := size s0 in
-  let w1 := wrun ascii_fold (take n0 (drop (S pos) fl)) w0 in
+  let w1 := wrun cf (take n0 (drop (S pos) fl)) w0 in
   eqb_ln (sort_nats (take n0 ys)) (sorted_elems s0)
   && eqb_ln (sort_nats (drop n0 ys)) (sorted_elems (getset w1 ∖ s0)).
-Definition sq (s : list nat) (q : str) (st : mstate) : bool := eqb_ln (sorted_elems (search ascii_fold q st)) s.
+Definition sq (s : list nat) (q : str) (st : mstate) : bool := eqb_ln (sorted_elems (search cf q st)) s.
 """
+
+
+def casefold_table(strings) -> tuple[list[tuple[int, list[int]]], list[str]]:
+    """The table [non-ASCII code point -> code points of chr(c).casefold()] for every code point of `strings`, closed under
+    itself; and the strings whose casefold is NOT the concatenation of the per-code-point foldings (expected: none)."""
+    tab: dict[int, list[int]] = {}
+    todo = [ord(ch) for s in strings for ch in s if ord(ch) >= 128]
+    while todo:
+        c = todo.pop()
+        if c in tab:
+            continue
+        tab[c] = [ord(x) for x in chr(c).casefold()]
+        todo += [x for x in tab[c] if x >= 128 and x not in tab]
+    tab = {c: l for c, l in tab.items() if l != [c]}           # absent = unchanged (as for ASCII non-letters)
+    odd = [s for s in strings if s.casefold() != ''.join(ch.casefold() for ch in s)]
+    return sorted(tab.items()), odd
 
 
 def _strtab(tab: dict, s: str) -> str:
@@ -465,6 +499,7 @@ def observed_map(w: World, op) -> int:
 
 
 RAISED: list = []
+CF_TABLES: list = []
 
 
 def run_case(ops) -> tuple[list, list, list]:
@@ -473,46 +508,67 @@ def run_case(ops) -> tuple[list, list, list]:
     w = World(2)
     steps = []
     iters = []
-    for op in ops:
-        pos = len(steps)
-        try:
-            for flat, err in w.steps(op):
-                m = observed_map(w, flat)
-                steps.append((flat, m, err, w.observe(m)))
-        except Exception as exc:   # noqa: BLE001 - an exception escaping the API: the model has none, report as disagreement
-            RAISED.append((ops, f'{type(exc).__name__}: {exc}'))
-            break
-        if op[0] == 'iter' and op[2] in ('class', 'target') and not w.iter_truncated:
-            iters.append((pos, op[1], op[2], op[3], list(w.iter_yields)))
     queries = []
-    for m in range(len(w.maps)):
-        for q in QUERIES:
-            try:
-                got = sorted({w.eid(m, e) for e in w.maps[m].search(q)})
-            except Exception as exc:   # noqa: BLE001
-                RAISED.append((ops, f'search({q!r}): {type(exc).__name__}: {exc}'))
-                got = [-1]
-            queries.append((m, q, got))
+    try:
+        with time_limit(HISTORY_LIMIT_S):
+            for op in ops:
+                pos = len(steps)
+                try:
+                    for flat, err in w.steps(op):
+                        m = observed_map(w, flat)
+                        steps.append((flat, m, err, w.observe(m)))
+                except Exception as exc:   # noqa: BLE001 - an exception escaping the API: the model has none, report as disagreement
+                    RAISED.append((ops, f'{type(exc).__name__}: {exc}'))
+                    break
+                if op[0] == 'iter' and op[2] in ('class', 'target') and not w.iter_truncated:
+                    iters.append((pos, op[1], op[2], op[3], list(w.iter_yields)))
+            for m in range(len(w.maps)):
+                for q in QUERIES:
+                    try:
+                        multi = sorted(w.eid(m, e) for e in itertools.islice(w.maps[m].search(q), 200))
+                        got = sorted(set(multi))
+                    except Exception as exc:   # noqa: BLE001
+                        RAISED.append((ops, f'search({q!r}): {type(exc).__name__}: {exc}'))
+                        got = multi = [-1]
+                    queries.append((m, q, got, multi))
+    except Hang as exc:
+        HANGS[0] += 1
+        RAISED.append((ops, f'Hang: {exc}'))
     return steps, queries, iters
 
 
 PRE_SHAPES = r"""
 Definition sq2 (s : list nat) (q : str) (st : mstate) : bool :=
-  eqb_ln (sorted_elems (search_sh ascii_fold gen_search_shape q st).1) s.
+  eqb_ln (sorted_elems (search_sh cf gen_search_shape q st).1) s.
+(* multiplicities: the implementation's yields (sorted, with repetitions) against search_count of the generated program *)
+Fixpoint count_nat (x : nat) (l : list nat) : nat := match l with [] => 0 | y :: r => (if Nat.eqb x y then 1 else 0) + count_nat x r end.
+Definition sq3 (ys : list nat) (q : str) (st : mstate) : bool :=
+  forallb (fun e => Nat.eqb (count_nat e ys) (search_count cf gen_search_shape q e st)) (seq 0 (nobj st)).
 """
 
 
 def corr(ck: Ck, escalate: bool = False, shapes: bool = False) -> None:
     # quick tier with a broken tie: a larger random budget, but the exhaustive short histories stay in thorough
-    n = 2500 if ck.thorough else (600 if (escalate or ck.tie_broken) else 200)
+    n = 2500 if ck.thorough else (600 if (escalate or ck.tie_broken) else 170)
     cases = []
     RAISED.clear()
+    CF_TABLES.clear()
+    HANGS[0] = 0
     seqs: list = list(CORPUS)
     if ck.thorough:
         seqs += list(exhaustive_short())
+    n_uni = 0
     while len(seqs) < n:
-        seqs.append(gen_ops(ck.rng, ck.rng.choice([3, 6, 12, 25, 40])))
+        # round 4: every fifth random history draws its names from the non-ASCII alphabet (ß / SS / ss / İ ...): the model is
+        # instantiated with table_fold <CPython's casefold table of the batch> instead of ASCII lower-casing
+        uni = len(seqs) % 5 == 4
+        n_uni += uni
+        seqs.append(gen_ops(ck.rng, ck.rng.choice([3, 6, 12, 25, 40]), UNI_NAMES if uni else NAMES))
+    ck.count('correspondence_non_ascii_histories', n_uni)
     for ops in seqs:
+        if HANGS[0] >= 3:
+            ck.notes.append(f'correspondence stopped after {len(cases)} histories: the implementation did not come back {HANGS[0]} times')
+            break
         steps, queries, iters = run_case(ops)
         cases.append((ops, steps, queries, iters))
         ck.count('correspondence_index_iterations', len(iters))
@@ -549,12 +605,12 @@ def corr(ck: Ck, escalate: bool = False, shapes: bool = False) -> None:
             lits.append('[' + '; '.join(f'({coq_wop(tab, f)}, {m}, {coq_exp(tab, err, obs)})' for f, m, err, obs in steps) + ']')
             flat_ops = '[' + '; '.join(coq_wop(tab, f) for f, _m, _e, _o in steps) + ']'
             qs = ' && '.join(f'match w !! {m} with Some st => sq {_c_nats(r)} {_strtab(tab, q)} st | None => false end'
-                             for m, q, r in queries)
+                             for m, q, r, _ in queries) or 'true'      # no queries: the history was cut short (exception / hang)
             if shapes:   # VMF.search as written (generated program over the defaultdict semantics), 5 of the queries
-                qs2 = ' && '.join(f'match w !! {m} with Some st => sq2 {_c_nats(r)} {_strtab(tab, q)} st | None => false end'
-                                  for m, q, r in queries if q in QUERIES_SH)
-                q2lits.append(f'(let w := wrun ascii_fold {flat_ops} w2 in {qs2})')
-            qlits.append(f'(let w := wrun ascii_fold {flat_ops} w2 in {qs})')
+                qs2 = ' && '.join(f'match w !! {m} with Some st => sq2 {_c_nats(r)} {_strtab(tab, q)} st && sq3 {_c_nats(ys)} {_strtab(tab, q)} st | None => false end'
+                                  for m, q, r, ys in queries if q in QUERIES_SH) or 'true'
+                q2lits.append(f'(let w := wrun cf {flat_ops} w2 in {qs2})')
+            qlits.append(f'(let w := wrun cf {flat_ops} w2 in {qs})')
             if iters:
                 chk = ' && '.join(
                     f'iter_ok fl {pos} {m} {"true" if which == "class" else "false"} '
@@ -564,12 +620,17 @@ def corr(ck: Ck, escalate: bool = False, shapes: bool = False) -> None:
                 ilits.append(f'(let fl := {flat_ops} in {chk})')
             else:
                 ilits.append('true')
-        pre = PRE + (PRE_SHAPES if shapes else '') + ''.join(f'Definition {name} : str := {_coq_str(s)}.\n' for s, name in tab.items())
+        cft, odd = casefold_table(list(tab))
+        CF_TABLES.append((cft, odd))
+        cfdef = ('Definition cf_tab : list (N * list N) := [' + '; '.join(f'({c}, [{"; ".join(map(str, l))}])' for c, l in cft) + ']%N.\n'
+                 'Definition cf : str -> str := table_fold cf_tab.\n')
+        pre = cfdef + PRE + (PRE_SHAPES if shapes else '') + ''.join(f'Definition {name} : str := {_coq_str(s)}.\n' for s, name in tab.items())
         exprs = ['[' + '; '.join(f'first_bad 0 {l} w2' for l in lits) + ']',
                  '[' + '; '.join(qlits) + ']',
                  '[' + '; '.join(ilits) + ']',
-                 '[' + '; '.join(q2lits) + ']']
-        imports = IMPORTS + (['SV.SM.IndexShapes', 'SV.Gen.IndexShapes_gen'] if shapes else [])
+                 '[' + '; '.join(q2lits) + ']',
+                 'tab_non_ascii cf_tab && tab_closed cf_tab']
+        imports = IMPORTS + (['SV.SM.IndexShapes', 'SV.SM.IndexSearchCount', 'SV.Gen.IndexShapes_gen'] if shapes else [])
         return lo, ck.coq_eval(imports, exprs, name=f'index{lo}', preamble=pre, timeout=900)
 
     with ThreadPoolExecutor(max_workers=6) as ex:
@@ -593,6 +654,18 @@ def corr(ck: Ck, escalate: bool = False, shapes: bool = False) -> None:
         for i, r in enumerate(parse_coq_nested(vals[3])):
             if r is not True:
                 bad_q2.append((lo + i, None))
+    bad_tab = [lo for lo, vals in results if vals[4].strip() != 'true']
+    odd = sorted({s for _, o in CF_TABLES for s in o})
+    union = sorted({(c, tuple(l)) for t, _ in CF_TABLES for c, l in t})
+    ascii_ok = all(chr(c).casefold() == (chr(c + 32) if 65 <= c <= 90 else chr(c)) for c in range(128))
+    ck.obligation('correspondence:casefold_is_table_fold', not bad_tab and not odd and ascii_ok,
+                  f'str.casefold on the strings of the correspondence is code point by code point ({len(odd)} exceptions), ASCII lower-casing '
+                  f'on ASCII ({ascii_ok}), and the table of the non-ASCII code points used ({[(hex(c), [hex(x) for x in l]) for c, l in union]}) has '
+                  f'non-ASCII keys and folded images (tab_non_ascii && tab_closed, evaluated by Coq per batch: {len(bad_tab)} failures): '
+                  f'the hypotheses of c07_table_fold_ok / c07_table_fold_idem, so the theorems apply to the folding the model was run with')
+    if bad_tab or odd or not ascii_ok:
+        ck.tie_broken.append('correspondence: str.casefold is not the table folding the model was instantiated with')
+    ck.extra['casefold_table'] = [[c, list(l)] for c, l in union]
     ck.obligation('correspondence:index_ops', not bad,
                   f'{len(cases)} histories / {sum(len(c[1]) for c in cases)} steps: after every step error code, entity list, '
                   f'spawn, all key lists, by_class and by_target of model (vm_compute) vs implementation: {len(bad)} disagreements')
@@ -604,7 +677,7 @@ def corr(ck: Ck, escalate: bool = False, shapes: bool = False) -> None:
         # make_unique / iteration left behind in the implementation only)
         ck.obligation('correspondence:search_as_written', not bad_q2,
                       f'{len(cases)} final worlds x {len(QUERIES_SH)} queries per map, search_sh gen_search_shape '
-                      f'(the program read off VMF.search) vs VMF.search: {len(bad_q2)} disagreements')
+                      f'(the program read off VMF.search) vs VMF.search, as sets and — search_count — with the multiplicity of every entity: {len(bad_q2)} disagreements')
         if bad_q2:
             ck.tie_broken.append('correspondence search as written (SM/IndexShapes.v sp_run vs VMF.search)')
     if RAISED:
@@ -657,7 +730,7 @@ def exhaustive_short():
 
 
 # ------------------------------------------------------------------------------------------------ source shapes
-SHAPE_IMPORTS = ['SV.SM.IndexModel', 'SV.SM.IndexShapes', 'SV.SM.IndexMaint', 'SV.SM.IndexRemove', 'SV.Gen.IndexShapes_gen']
+SHAPE_IMPORTS = ['SV.SM.IndexModel', 'SV.SM.IndexShapes', 'SV.SM.IndexMaint', 'SV.SM.IndexRemove', 'SV.SM.IndexSearchCount', 'SV.Gen.IndexShapes_gen']
 SHAPE_OBLIGATIONS = {
     # Entity.__setitem__ (theorem c07_setitem_as_written: all five => the code is the model's set_item)
     'setitem_lookup_is_case_insensitive': 'ss_match_ok gen_setitem_shape',
@@ -672,6 +745,9 @@ SHAPE_OBLIGATIONS = {
     'search_star_branch_yields_exactly_the_prefix_scan': 'star_ok (sh_star gen_search_shape)',
     'search_exact_branch_yields_name_and_class_matches': 'exact_ok (sh_exact gen_search_shape)',
     'search_scans_a_snapshot_of_the_items': 'gen_search_scans_snapshot',
+    # round 4 (theorem c07_search_multiplicity): no part is yielded twice on any path
+    'search_star_branch_yields_every_match_once': 'star_once (sh_star gen_search_shape)',
+    'search_exact_branch_yields_the_name_matches_once_and_the_class_matches_once': 'exact_once (sh_exact gen_search_shape)',
     # Entity.__setitem__, the maintenance part after the lookup loop (theorem c07_setitem_maintenance_as_written)
     'setitem_classname_branch_rekeys_by_class': 'maint_classname_ok gen_setitem_maint',
     'setitem_worldspawn_guard_error_path_restores_the_index': 'maint_guard_error_ok gen_setitem_maint',
@@ -713,10 +789,45 @@ LISTOPS_OBLIGATIONS = {
 }
 
 
-def shape_obligations(ck: Ck, ok_s: bool = True, ok_d: bool = False, ok_l: bool = False) -> None:
+# round 4: the glue (Gen/IndexGlue_gen.v; theorems c07_vmf_init_as_written, c07_parse_as_written, c07_create_ent_as_written,
+# c07_entity_init_as_written, c07_pop_as_written, c07_make_unique_as_written)
+GLUE_IMPORTS = ['SV.SM.IndexModel', 'SV.SM.IndexGlue', 'SV.Gen.IndexGlue_gen']
+GLUE_OBLIGATIONS = {
+    'vmf_init_creates_the_indexes_and_the_entity_list_before_the_worldspawn': 'vmf_init_containers_first gen_vmf_init',
+    'vmf_init_worldspawn_is_a_new_entity_classed_through_setitem_and_filed_under_no_name': 'vmf_init_spawn_ok gen_vmf_init',
+    'parse_takes_the_placeholder_out_of_both_indexes_before_replacing_the_spawn': 'parse_drops_the_placeholder gen_parse_spawn',
+    'parse_classes_the_new_spawn_through_setitem_and_files_it_under_its_name': 'parse_files_the_new_spawn gen_parse_spawn',
+    'parse_adds_every_entity_block_through_add_ent': 'parse_ent_ok gen_parse_entity',
+    'create_ent_constructs_with_the_classname_and_adds_through_add_ent': 'create_ent_ok gen_create_ent',
+    'entity_init_starts_from_a_new_empty_key_dict': 'ei_fresh_dict gen_einit',
+    'entity_init_assigns_the_map_before_storing_keys': 'ei_map_first gen_einit',
+    'entity_init_stores_the_keys_through_setitem': 'match ei_store gen_einit with EISetItemLoop => true | _ => false end',
+    'entity_parse_constructs_through_entity_init': 'gen_entity_parse_through_init',
+    'entity_copy_constructs_through_entity_init_with_its_own_keys_for_the_given_map': 'copy_ok gen_copy',
+    'pop_lookup_is_case_insensitive': 'pop_lookup_is_case_insensitive gen_pop',
+    'pop_deletes_through_delitem': 'pop_deletes_through_delitem gen_pop',
+    'make_unique_keeps_a_name_that_only_this_entity_has': 'mu_unique_test_ok gen_make_unique',
+    'make_unique_clears_its_own_name_before_searching': 'mu_clears_ok gen_make_unique',
+    'make_unique_base_name_strips_digits_and_is_looked_up_folded': 'mu_base_ok gen_make_unique',
+    'make_unique_candidates_count_from_1_and_are_looked_up_folded': 'mu_loop_ok gen_make_unique',
+    'make_unique_stores_names_through_setitem': 'mu_stores_through_setitem gen_make_unique',
+    'popitem_setdefault_update_are_the_mutablemapping_mixins': 'gen_mixins_inherited',
+    'getitem_never_raises_so_setdefault_stores_nothing': 'gen_getitem_never_raises',
+}
+# the instance of theorem c07_property: all generated objects together pass programs_ok
+PROGRAMS_EXPR = ('programs_ok (PG gen_setitem_shape gen_setitem_maint gen_delitem_maint gen_delitem_loop gen_clear gen_add_ent '
+                 'gen_remove_ent gen_add_ents gen_remove_copyset gen_search_shape gen_vmf_init gen_parse_spawn gen_parse_entity '
+                 'gen_create_ent gen_einit gen_entity_parse_through_init gen_copy gen_pop gen_make_unique gen_mixins_inherited '
+                 'gen_getitem_never_raises)')
+
+
+def shape_obligations(ck: Ck, ok_s: bool = True, ok_d: bool = False, ok_l: bool = False, ok_g: bool = False) -> None:
     groups = [g for g in ((ok_s, SHAPE_IMPORTS, SHAPE_OBLIGATIONS, 'IndexShapes_gen'),
                           (ok_d, DEL_IMPORTS, DEL_OBLIGATIONS, 'IndexDel_gen'),
-                          (ok_l, LISTOPS_IMPORTS, LISTOPS_OBLIGATIONS, 'IndexListOps_gen')) if g[0]]
+                          (ok_l, LISTOPS_IMPORTS, LISTOPS_OBLIGATIONS, 'IndexListOps_gen'),
+                          (ok_g, GLUE_IMPORTS, GLUE_OBLIGATIONS, 'IndexGlue_gen')) if g[0]]
+    if ok_s and ok_d and ok_l and ok_g:
+        groups.append((True, ['SV.SM.IndexProperty'], {'c07_property:all_programs_pass_their_obligations': PROGRAMS_EXPR}, 'Index*_gen'))
     # one coqc run for all generated files that exist (their definitions have distinct names)
     imports: list[str] = []
     obs: dict[str, str] = {}
@@ -729,7 +840,7 @@ def shape_obligations(ck: Ck, ok_s: bool = True, ok_d: bool = False, ok_l: bool 
     for oname, good in res.items():
         if not good:
             ck.tie_broken.append(f'source shape obligation {oname} (Gen/{where.get(oname, "?")}.v)')
-    ck.extra['source_shapes'] = {g: ck.extra.get('translated', {}).get(g) for g in ('IndexShapes_gen', 'IndexDel_gen', 'IndexListOps_gen')}
+    ck.extra['source_shapes'] = {g: ck.extra.get('translated', {}).get(g) for g in ('IndexShapes_gen', 'IndexDel_gen', 'IndexListOps_gen', 'IndexGlue_gen')}
 
 
 # ------------------------------------------------------------------------------------------------ main
@@ -743,13 +854,30 @@ def _assumptions_in_background(ck: Ck, props_file: str):
     names = re.findall(r'^\s*(?:Theorem|Lemma|Corollary)\s+([A-Za-z0-9_\']+)', (ROCQ / props_file).read_text(), re.M)
     mod = 'SV.' + props_file[:-2].replace('/', '.')
     body0 = f'Require Import {mod}.\n' + ''.join(f'Print Assumptions {n}.\n' for n in names)
-    pool = ThreadPoolExecutor(max_workers=1)
+    # four coqc runs side by side (Print Assumptions walks the whole dependency cone of every theorem: ~1 s each)
+    n_chunks = 4
+    chunks = [names[i::n_chunks] for i in range(n_chunks)]
+    pool = ThreadPoolExecutor(max_workers=n_chunks)
     orig = ck.coq_scratch
-    fut = pool.submit(orig, body0, 'assumptions')
+    futs = [pool.submit(orig, f'Require Import {mod}.\n' + ''.join(f'Print Assumptions {n}.\n' for n in ch), f'assumptions{i}')
+            for i, ch in enumerate(chunks) if ch]
 
     def finish() -> None:
         def cached(body: str, name: str = 'scratch', timeout: int = 600):
-            return fut.result() if body == body0 else orig(body, name, timeout)
+            if body != body0:
+                return orig(body, name, timeout)
+            res = [f.result() for f in futs]
+            if any(rc != 0 for rc, _ in res):
+                return max(rc for rc, _ in res), ''.join(out for _, out in res)
+            # put the per-theorem blocks back into the order of the file
+            from harness.common import _split_assumptions
+            per: dict[str, list] = {}
+            for ch, (_, out) in zip([c for c in chunks if c], res):
+                blocks = _split_assumptions(out, len(ch))
+                if len(blocks) != len(ch):
+                    return orig(body, name, timeout)
+                per.update(zip(ch, blocks))
+            return 0, ''.join('Closed under the global context\n' if not per[n] else 'Axioms:\n' + ''.join(f'{a}\n' for a in per[n]) for n in names)
         ck.coq_scratch = cached          # type: ignore[method-assign]
         try:
             ck.theorems(props_file)
@@ -769,19 +897,20 @@ def run(ck: Ck) -> None:
         timing[name] = round(time.time() - t0, 1)
         t0 = time.time()
     ck.rule = ('histories over 2-3 real VMF objects with at most 6 entities each; names drawn from '
-               "{a, A, Ab, aB, '', a1, worldspawn} (oracle stream also ß/SS/ss/İ), keys from classname/targetname in "
+               "{a, A, Ab, aB, '', a1, worldspawn} (15 % of the oracle histories and 20 % of the correspondence histories: ß/SS/ss/İ), keys from classname/targetname in "
                'three spellings plus two other keys; operations create/new/copy/add/adds (iterable passed as generator, iterator, map object, list or tuple)/remove/set/del/tuple-del/pop/'
                'popitem/setdefault/update/clear/make_unique/export/parse/new map/defaultdict read of an index (folded or '
                'un-folded key)/iterate-while-mutating (loop bodies: set/del/remove/pop/clear/make_unique/create a like-named '
                'entity = late addition); a history is non-trivial when it adds an entity to a map and afterwards mutates keys '
                'or removes; distinct by full history')
     ck.trusted.append('hand-written model SM/IndexModel.v (tied by the operation-sequence correspondence and the census translator on every run; '
-                      'Entity.__setitem__ lookup, VMF.search and CopySet.__iter__ additionally by translator-generated shapes proved equal to it)')
-    ck.trusted.append('translate/c07_index_shapes.py, c07_index_del.py, c07_index_listops.py (fail-closed symbolic walks of Entity.__setitem__ (lookup loop and index maintenance), Entity.__delitem__, VMF.add_ent, VMF.add_ents, VMF.remove_ent, VMF.search, CopySet.__iter__, _remove_copyset)')
+                      'every function of the census and the glue around them additionally by translator-generated programs proved equal to it: theorem c07_property)')
+    ck.trusted.append('translate/c07_index_shapes.py, c07_index_del.py, c07_index_listops.py, c07_index_glue.py (fail-closed symbolic walks of Entity.__setitem__ (lookup loop and index maintenance), Entity.__delitem__, Entity.clear, Entity.__init__/parse/copy/pop/make_unique, VMF.__init__, VMF.parse, VMF.create_ent, VMF.add_ent, VMF.add_ents, VMF.remove_ent, VMF.search, CopySet.__iter__, _remove_copyset)')
     ck.assumptions += [
         'str.casefold leaves the empty string and the literals classname/targetname/worldspawn unchanged (hypotheses of every theorem; true of CPython)',
         'operations refer to Entity objects created with the same VMF as parent; vmf.add_ent(vmf.spawn) is outside the domain',
-        'str.casefold is idempotent and distributes over an appended decimal number, fold(b + str(i)) = fold(b) + str(i) (hypotheses of the search / make_unique termination theorems; proved for ASCII lower-casing)',
+        'str.casefold is idempotent and distributes over an appended decimal number, fold(b + str(i)) = fold(b) + str(i) (hypotheses of the search / make_unique termination theorems; proved for ASCII lower-casing and for every table folding, c07_table_fold_ok/idem; the table of the code points used is taken from CPython on every run)',
+        'popitem / setdefault / update are the collections.abc.MutableMapping mixins (Entity does not define them: obligation) and behave as documented: popitem = first key through __getitem__/__delitem__, setdefault = __getitem__ else __setitem__, update = __setitem__ per item',
         'nobody writes through the dict returned by the deprecated Entity.keys property (the only place, besides Entity.copy -> constructor, where _keys escapes: census obligation all_key_dict_escapes_known)',
         "the 'nodeid' keyvalue processing of __setitem__/__delitem__/add_ent/remove_ent (property C08) does not touch classname/targetname and is not modelled",
     ]
@@ -790,16 +919,18 @@ def run(ck: Ck) -> None:
     ok_s = ck.translate('IndexShapes_gen', c07_index_shapes.translate)
     ok_d = ck.translate('IndexDel_gen', c07_index_del.translate)
     ok_l = ck.translate('IndexListOps_gen', c07_index_listops.translate)
+    ok_g = ck.translate('IndexGlue_gen', c07_index_glue.translate)
     built = ck.build(['Props/C07.vo'] + (['SM/IndexCensus.vo'] if ok_t else []) + (['Gen/IndexShapes_gen.vo'] if ok_s else [])
-                     + (['Gen/IndexDel_gen.vo'] if ok_d else []) + (['Gen/IndexListOps_gen.vo'] if ok_l else []))
+                     + (['Gen/IndexDel_gen.vo'] if ok_d else []) + (['Gen/IndexListOps_gen.vo'] if ok_l else [])
+                     + (['Gen/IndexGlue_gen.vo'] if ok_g else []))
     lap('translate+build')
     if built:
         # Print Assumptions of every theorem of Props/C07.v is one single-threaded coqc run of about 20 s: it runs in
         # the background while the obligations and correspondences below are evaluated; ck.theorems() then does its
         # usual bookkeeping on that output (same scratch file text, see _assumptions_in_background)
         finish_theorems = _assumptions_in_background(ck, 'Props/C07.v')
-        if ok_s or ok_d or ok_l:
-            shape_obligations(ck, ok_s, ok_d, ok_l)
+        if ok_s or ok_d or ok_l or ok_g:
+            shape_obligations(ck, ok_s, ok_d, ok_l, ok_g)
             lap('shape_obligations')
         if ok_t:
             obs = {
@@ -818,17 +949,22 @@ def run(ck: Ck) -> None:
                 'remove_ent_removes_from_both': 'existsb (fun s => String.eqb (site_fn s) "VMF.remove_ent" && String.eqb (site_ix s) "by_class") index_sites && existsb (fun s => String.eqb (site_fn s) "VMF.remove_ent" && String.eqb (site_ix s) "by_target") index_sites',
                 'parse_drops_placeholder_spawn': 'existsb (fun s => String.eqb (site_fn s) "VMF.parse" && String.eqb (site_ix s) "by_class" && negb (site_add s)) index_sites && existsb (fun s => String.eqb (site_fn s) "VMF.parse" && String.eqb (site_ix s) "by_target" && negb (site_add s)) index_sites',
             }
+            # the census hypothesis of theorem c07_property: every function that writes an index, an entity list, VMF.spawn or
+            # a key dict (or hands such work to another writer) is one of the functions with an as-written semantics
+            obs['c07_property:every_census_function_is_modelled'] = (
+                'census_covered (map fst key_writers ++ map fst entity_list_writers ++ map fst spawn_writers ++ '
+                'map (fun s => site_fn s) index_sites ++ map fst index_writer_calls ++ map snd index_writer_calls)')
             for fn in sorted({s[0] for s in side.get('index_sites', [])}):
                 obs[f'index_keys_folded_in:{fn}'] = f'keys_folded_in "{fn}"'
                 obs[f'index_key_values_come_from_the_filed_entity_in:{fn}'] = f'key_sources_ok_in "{fn}"'
-            res = ck.instance_obligations(['Coq.Lists.List', 'Coq.Strings.String', 'Coq.Bool.Bool', 'SV.Gen.IndexSites_gen', 'SV.SM.IndexCensus'],
-                                          obs, name='census')
+            res = ck.instance_obligations(['Coq.Lists.List', 'Coq.Strings.String', 'Coq.Bool.Bool', 'SV.Gen.IndexSites_gen', 'SV.SM.IndexCensus',
+                                           'SV.SM.IndexProperty'], obs, name='census')
             for name, ok in res.items():
                 if not ok:
                     ck.tie_broken.append(f'census obligation {name} (Gen/IndexSites_gen.v)')
         # a changed hand-modelled function escalates the correspondence budget (never an alarm by itself)
         hand = {k: v for k, v in side.get('digests', {}).items() if k in MODEL_DIGESTS}
-        if side.get('digests') and (hand != MODEL_DIGESTS or not (ok_s and ok_d and ok_l)):
+        if side.get('digests') and (hand != MODEL_DIGESTS or not (ok_s and ok_d and ok_l and ok_g)):
             ck.notes.append(f'hand-modelled functions changed since the model was written ({hand}): thorough correspondence budget')
             ck.extra['digest_escalation'] = True
         lap('census_obligations')
